@@ -4,6 +4,7 @@ import LdkModel.Props.C14
 #print axioms Ldk.C14.peel_build
 #print axioms Ldk.C14.peel_build_one_hop
 #print axioms Ldk.C14.bigSizeFrame_wellFramed
+#print axioms Ldk.C14.bigSizeFrame_wellFramed_u16
 #print axioms Ldk.C14.peel_checks_mac_first
 #print axioms Ldk.C14.peel_modified_is_forgery
 #print axioms Ldk.C14.peel_rejects_modified
